@@ -37,6 +37,7 @@ REGISTRY = {
     "T7mic": ("T7mic.v", "t7_mic", "gen"),
     "T7lazy": ("T7lazy.v", "t7_lazy", "gen"),
     "T8": ("T8.v", "t8_kwargs", "gen"),
+    "T8fwd": ("T8fwd.v", "t8_forward", "gen"),
 }
 
 
